@@ -173,7 +173,7 @@ func (ci classInvariant) isNormaliser(in ssa.Instruction) bool {
 // hasDeferredNormaliser: a `defer normaliser()` that dominates in.
 func (ci classInvariant) deferredBefore(fn *ssa.Function, in ssa.Instruction) bool {
 	found := false
-	eachInstr(fn, func(x ssa.Instruction) {
+	eachInstrRaw(fn, func(x ssa.Instruction) {
 		d, ok := x.(*ssa.Defer)
 		if !ok {
 			return
@@ -191,12 +191,12 @@ func (ci classInvariant) deferredBefore(fn *ssa.Function, in ssa.Instruction) bo
 func (z *zoneEngine) classLoadBounds(fn *ssa.Function, out map[*ssa.UnOp]int64) {
 	for _, ci := range classInvariants {
 		var stores []ssa.Instruction
-		eachInstr(fn, func(in ssa.Instruction) {
+		eachInstrRaw(fn, func(in ssa.Instruction) {
 			if _, is := isFieldStore(in, ci.tn, ci.fld); is {
 				stores = append(stores, in)
 			}
 		})
-		eachInstr(fn, func(in ssa.Instruction) {
+		eachInstrRaw(fn, func(in ssa.Instruction) {
 			ld, ok := in.(*ssa.UnOp)
 			if !ok || ld.Op != token.MUL || !isIntType(ld.Type()) {
 				return
@@ -226,7 +226,7 @@ func (z *zoneEngine) stateLoadBounds(fn *ssa.Function) map[*ssa.UnOp]int64 {
 		fe   fieldEnsure
 	}
 	var srcs []src
-	eachInstr(fn, func(in ssa.Instruction) {
+	eachInstrRaw(fn, func(in ssa.Instruction) {
 		if c, ok := in.(*ssa.Call); ok && len(c.Call.Args) > 0 {
 			for _, fe := range fieldEnsures[calleeName(c)] {
 				srcs = append(srcs, src{c, fe})
@@ -237,7 +237,7 @@ func (z *zoneEngine) stateLoadBounds(fn *ssa.Function) map[*ssa.UnOp]int64 {
 	if len(srcs) == 0 {
 		return out
 	}
-	eachInstr(fn, func(in ssa.Instruction) {
+	eachInstrRaw(fn, func(in ssa.Instruction) {
 		ld, ok := in.(*ssa.UnOp)
 		if !ok || ld.Op != token.MUL || !isIntType(ld.Type()) {
 			return
@@ -281,7 +281,7 @@ func (z *zoneEngine) stateLoadBounds(fn *ssa.Function) map[*ssa.UnOp]int64 {
 			}
 			isSrc := func(x ssa.Instruction) bool { return x == ssa.Instruction(sc.call) }
 			killed := false
-			eachInstr(fn, func(k ssa.Instruction) {
+			eachInstrRaw(fn, func(k ssa.Instruction) {
 				if killed || !isKill(k) {
 					return
 				}
@@ -298,7 +298,7 @@ func (z *zoneEngine) stateLoadBounds(fn *ssa.Function) map[*ssa.UnOp]int64 {
 				}
 				if ubClass != "" {
 					lineKilled := false
-					eachInstr(fn, func(k ssa.Instruction) {
+					eachInstrRaw(fn, func(k ssa.Instruction) {
 						if lineKilled || !z.lineKills[k] {
 							return
 						}
@@ -340,7 +340,7 @@ func (p *Prog) primitiveLineWritesIn(f *ssa.Function) []ssa.Instruction {
 func (z *zoneEngine) getterEqualities(fn *ssa.Function) map[*ssa.Call]*ssa.Call {
 	out := map[*ssa.Call]*ssa.Call{}
 	byGetter := map[string][]*ssa.Call{}
-	eachInstr(fn, func(in ssa.Instruction) {
+	eachInstrRaw(fn, func(in ssa.Instruction) {
 		if c, ok := in.(*ssa.Call); ok {
 			if _, is := stateGetters[calleeName(c)]; is && len(c.Call.Args) > 0 {
 				byGetter[calleeName(c)] = append(byGetter[calleeName(c)], c)
@@ -353,7 +353,7 @@ func (z *zoneEngine) getterEqualities(fn *ssa.Function) map[*ssa.Call]*ssa.Call 
 		}
 		g := stateGetters[name]
 		var killers []ssa.Instruction
-		eachInstr(fn, func(in ssa.Instruction) {
+		eachInstrRaw(fn, func(in ssa.Instruction) {
 			if g.kill(z.p, in) {
 				killers = append(killers, in)
 				if os.Getenv("RLCHECK_DEBUG_KILL") != "" && strings.Contains(fnName(fn), os.Getenv("RLCHECK_DEBUG_KILL")) {
@@ -542,8 +542,8 @@ var nonnegFieldLB = map[string]int64{}
 func sortCallbackParams(p *Prog) func(fn *ssa.Function) []*ssa.Parameter {
 	// closures passed to sort.Slice / sort.SliceStable / sort.Search; Less/Swap of sort.Interface implementations
 	cb := map[*ssa.Function]bool{}
-	for _, f := range p.RepoFuncs {
-		eachInstr(f, func(in ssa.Instruction) {
+	for _, f := range p.AllFuncs {
+		eachInstrRaw(f, func(in ssa.Instruction) {
 			if !isCallTo(in, "sort.Slice", "sort.SliceStable", "sort.Search") {
 				return
 			}
@@ -589,8 +589,8 @@ func sortCallbackParams(p *Prog) func(fn *ssa.Function) []*ssa.Parameter {
 func sortCallbackFacts(p *Prog) func(fn *ssa.Function) []zEntryFact {
 	type capt struct{ fv int }
 	closures := map[*ssa.Function]int{} // closure -> index of the free variable holding the sorted slice
-	for _, f := range p.RepoFuncs {
-		eachInstr(f, func(in ssa.Instruction) {
+	for _, f := range p.AllFuncs {
+		eachInstrRaw(f, func(in ssa.Instruction) {
 			if !isCallTo(in, "sort.Slice", "sort.SliceStable") {
 				return
 			}
@@ -628,7 +628,7 @@ func sortCallbackFacts(p *Prog) func(fn *ssa.Function) []zEntryFact {
 			fv := fn.FreeVars[k]
 			stored := false
 			var loads []ssa.Value
-			eachInstr(fn, func(in ssa.Instruction) {
+			eachInstrRaw(fn, func(in ssa.Instruction) {
 				if st, ok := in.(*ssa.Store); ok && st.Addr == ssa.Value(fv) {
 					stored = true
 				}
@@ -677,7 +677,7 @@ func sortCallbackFacts(p *Prog) func(fn *ssa.Function) []zEntryFact {
 func returnsLenOfReceiver(f *ssa.Function) bool {
 	ok := false
 	n := 0
-	eachInstr(f, func(in ssa.Instruction) {
+	eachInstrRaw(f, func(in ssa.Instruction) {
 		ret, isRet := in.(*ssa.Return)
 		if !isRet || len(ret.Results) != 1 {
 			return
@@ -743,7 +743,7 @@ func checkC01Nonneg(c *Ctx) {
 	seenRevB := map[string]bool{}
 	seenReviewed := map[string]bool{}
 	nProved, nReviewed := 0, 0
-	for _, f := range p.RepoFuncs {
+	for _, f := range p.AllFuncs {
 		// scope: the commands (root package) and the editing primitives (internal/core)
 		pk := f.Pkg
 		if pk == nil && f.Parent() != nil {
